@@ -135,12 +135,15 @@ func (it *Iterator) Seek(target []byte) bool {
 // Next advances the iterator to the next key
 func (it *Iterator) Next() bool {
 	it.mu.Lock()
-	defer it.mu.Unlock()
 
 	if !it.initialized {
+		// SeekToFirst and Valid take the lock themselves (the mutex is not
+		// re-entrant), so release it before delegating
+		it.mu.Unlock()
 		it.SeekToFirst()
 		return it.Valid()
 	}
+	defer it.mu.Unlock()
 
 	if it.dataBlockIter == nil {
 		// If we don't have a current block, attempt to load the one at the current index position
